@@ -198,7 +198,10 @@ impl MaxCharsCommandSizeLimiter {
         // not known before the PATH lookup, so reserve room for the worst case.
         const EXECUTABLE_PATH_RESERVE: usize = uucore::libc::PATH_MAX as usize;
 
-        let mut limiter = Self::new(arg_max - ARG_HEADROOM - EXECUTABLE_PATH_RESERVE - env_size);
+        // An environment that takes (nearly) the whole of ARG_MAX leaves no room
+        // at all: the budget is then zero, not a wrapped-around huge number.
+        let mut limiter =
+            Self::new(arg_max.saturating_sub(ARG_HEADROOM + EXECUTABLE_PATH_RESERVE + env_size));
         limiter.per_arg_overhead = POINTER_SIZE;
         // Linux refuses any single argument longer than MAX_ARG_STRLEN (32 pages).
         #[cfg(target_os = "linux")]
